@@ -86,47 +86,64 @@ blocking step of an accept thread on an accepted connection is bounded, so the s
 dropped after the timeout and the next client is served (`accept_threads_bounded`,
 `next_client_served`).  It holds since `fixes/C35-accept-peer-id-timeout` (transport: the whole
 inbound handshake under kHandshakeTimeout) and `fixes/C35-control-client-io-timeout` (control:
-SO_RCVTIMEO and SO_SNDTIMEO on every accepted client).  `C35_counterexample` keeps the statement about
-the unrepaired variant (a flag that is `false`): there the next client is never reached. -/
+SO_RCVTIMEO and SO_SNDTIMEO on every accepted client).  and as long as no recv / send
+loop on those threads retries on a timeout-class error.  `C35_counterexample` keeps the statements about the
+unrepaired variants: there the next client is never reached. -/
 
-/-- (T) the three flags regenerated from the source: a receive timeout is set before the first blocking
-    read of an accepted transport connection; the control accept loop sets SO_RCVTIMEO and SO_SNDTIMEO on
-    an accepted client before handling it.  Removing one of them breaks this obligation. -/
+/-- (T) the flags regenerated from the source: a receive timeout is set before the first blocking read of an
+    accepted transport connection; the control accept loop sets SO_RCVTIMEO and SO_SNDTIMEO on an accepted
+    client before handling it; and none of the recv / send loops that run on the accept threads
+    (`recv_line`, `recv_exact`, `send_all` of ControlServer.cpp, `SessionManager::recv_all`) goes round again
+    on a timeout-class error (which would re-arm the wait).  Removing a timeout or adding such a retry breaks
+    this obligation. -/
 theorem accept_threads_bounded :
-    transportPeerIdTimeout = true ∧ controlReadTimeout = true ∧ controlWriteTimeout = true := by decide
+    transportPeerIdTimeout = true ∧ transportReadRetries = false ∧
+    controlReadTimeout = true ∧ controlWriteTimeout = true ∧
+    controlLineReadRetries = false ∧ controlPayloadReadRetries = false ∧ controlWriteRetries = false ∧
+    controlReadRetriesOnTimeout = false := by decide
 
-/-- with the bounds the source has (whatever the timeout constant `T` is), every queued control client is
-    reached — whatever the clients before it do: stay silent, never read, or behave — after at most
-    `k · (T + B)` when no request costs more than `B` -/
+/-- hence every blocking step of either accept thread is bounded by the timeout constant -/
+theorem every_wait_bounded (T : Nat) (s : Site) : controlBounds T s = some T ∧ transportBounds T s = some T := by
+  obtain ⟨h1, h2, h3, h4, h5, h6, h7, _⟩ := accept_threads_bounded
+  cases s <;> simp [controlBounds, transportBounds, ioBound, h1, h2, h3, h4, h5, h6, h7]
+
+/-- with the bounds the source has (whatever the timeout constant `T` is), every queued client is reached —
+    whatever the clients before it do: stay silent, stop inside the header block, deliver less payload than
+    announced, never read, or behave — after at most `k · (T + B)` when no request costs more than `B` -/
 theorem next_client_served (T B : Nat) (cs : List Conn) (hB : ∀ c ∈ cs, c.work ≤ B) (k : Nat) :
-    ∃ t, pickedUpAt (ioBound controlReadTimeout T) (ioBound controlWriteTimeout T) cs k = some t ∧ t ≤ k * (T + B) := by
-  obtain ⟨_, hr, hw⟩ := accept_threads_bounded
-  rw [hr, hw]
-  exact pickedUpAt_bounded T B cs hB k
+    (∃ t, pickedUpAt (controlBounds T) cs k = some t ∧ t ≤ k * (T + B)) ∧
+    (∃ t, pickedUpAt (transportBounds T) cs k = some t ∧ t ≤ k * (T + B)) :=
+  ⟨pickedUpAt_bounded T B _ (fun s => (every_wait_bounded T s).1) cs hB k,
+   pickedUpAt_bounded T B _ (fun s => (every_wait_bounded T s).2) cs hB k⟩
 
-/-- the unrepaired variant: without a read bound the client behind a silent one is never reached; with a
-    read bound but no write bound the client behind one that never reads is never reached -/
+/-- the unrepaired variants: without a read bound the client behind a silent one is never reached; with read
+    bounds but no write bound the client behind one that never reads is never reached; with all timeouts set
+    but a payload loop that retries on timeout (seeded change round 2) the client behind one that delivers
+    less payload than announced is never reached -/
 theorem C35_counterexample :
-    pickedUpAt (ioBound false 5) (ioBound false 5) [.silent, .completes 1] 1 = none ∧
-    pickedUpAt (ioBound true 5) (ioBound false 5) [.neverReads 0, .completes 1] 1 = none := by decide
+    pickedUpAt (fun _ => ioBound false false 5) [.stalls .header 0, .completes 1] 1 = none ∧
+    pickedUpAt (fun s => if s = .write then ioBound false false 5 else some 5) [.stalls .write 0, .completes 1] 1 = none ∧
+    pickedUpAt (fun s => if s = .payload then ioBound true true 5 else some 5) [.stalls .payload 0, .completes 1] 1 = none := by
+  decide
 
-/-- what holds for a serial accept loop in general: well-behaved clients are always all reached; with both
-    bounds `T` in place everybody is reached within `k · (T + B)` -/
+/-- what holds for a serial accept loop in general: well-behaved clients are always all reached; with every
+    step bounded by `T` everybody is reached within `k · (T + B)` -/
 theorem C35_partial :
-    (∀ (cs : List Conn) (R W : Option Nat), (∀ c ∈ cs, c.wellBehaved = true) → ∀ k, (pickedUpAt R W cs k).isSome = true) ∧
-    (∀ (T B : Nat) (cs : List Conn), (∀ c ∈ cs, c.work ≤ B) →
-      ∀ k, ∃ t, pickedUpAt (some T) (some T) cs k = some t ∧ t ≤ k * (T + B)) :=
-  ⟨fun cs R W h => pickedUpAt_well_behaved cs h R W, pickedUpAt_bounded⟩
+    (∀ (cs : List Conn) (b : Bounds), (∀ c ∈ cs, c.wellBehaved = true) → ∀ k, (pickedUpAt b cs k).isSome = true) ∧
+    (∀ (T B : Nat) (b : Bounds), (∀ s, b s = some T) → ∀ (cs : List Conn), (∀ c ∈ cs, c.work ≤ B) →
+      ∀ k, ∃ t, pickedUpAt b cs k = some t ∧ t ≤ k * (T + B)) :=
+  ⟨fun cs b h => pickedUpAt_well_behaved cs h b, fun T B b hb cs hB => pickedUpAt_bounded T B b hb cs hB⟩
 
-/-- the real-thread probe's expectation follows the flags: bounded ⇒ the second client is served -/
-theorem probe_expectation :
-    servedBehindSilent true = true ∧ servedBehindSilent false = false ∧
-    servedBehindDeaf true = true ∧ servedBehindDeaf false = false := by decide
+/-- the real-thread probe's expectation follows the bounds: bounded at the site ⇒ the second client is served -/
+theorem probe_expectation (s : Site) :
+    servedBehind (fun _ => some 1) s = true ∧ servedBehind (fun x => if x = s then none else some 1) s = false := by
+  cases s <;> decide
 
-/-- non-vacuity of `next_client_served`: a queue with a silent client, one that never reads and a
-    well-behaved one meets the hypothesis, and the third is reached at 1 + (0 + 1) = 2 with `T = 1` -/
-example : (∀ c ∈ [Conn.silent, .neverReads 0, .completes 3], c.work ≤ 3) ∧
-    pickedUpAt (some 1) (some 1) [.silent, .neverReads 0, .completes 3] 2 = some 2 := by decide
+/-- non-vacuity of `next_client_served`: a queue with a silent client, one that short-changes its payload, one
+    that never reads and a well-behaved one meets the hypothesis, and the fourth is reached at 3 with `T = 1` -/
+example : (∀ c ∈ [Conn.stalls .header 0, .stalls .payload 0, .stalls .write 0, .completes 3], c.work ≤ 3) ∧
+    pickedUpAt (fun _ => some 1) [.stalls .header 0, .stalls .payload 0, .stalls .write 0, .completes 3] 3 = some 3 := by
+  decide
 
 /-! ### non-vacuity: the theorem is about a tree with live primitives, and it distinguishes -/
 
